@@ -155,7 +155,9 @@ def _append_id(repo):
     if len(sets) != 1:
         raise Untranslatable('util.append: expected one assignment to table[name]')
     guard = [s for s in fn.body if isinstance(s, ast.If)]
-    if len(guard) != 1 or ast.unparse(guard[0].test) != 'name not in table' or guard[0].orelse:
+    # `name not in table` / `name not in index`: the same test on a bijective table
+    if len(guard) != 1 or ast.unparse(guard[0].test) not in ('name not in table', 'name not in index') \
+            or guard[0].orelse:
         raise Untranslatable('util.append: expected `if name not in table:`')
     body = [ast.unparse(s) for s in guard[0].body if not isinstance(s, ast.Pass)]
     if body != [ast.unparse(sets[0]), 'index.append(name)']:
@@ -182,6 +184,11 @@ def _next(repo):
     col = elt.args[0].slice.value
     env = {'max(known)': 'listMax known', 'min(known)': 'listMin known', 'len(known)': 'known.length'}
     v = ret[0].value
+    if isinstance(v, ast.Name):  # `result = <expr>; return result`
+        defs = [s for s in fn.body if isinstance(s, ast.Assign) and ast.unparse(s.targets[0]) == v.id]
+        if len(defs) != 1:
+            raise Untranslatable(f'shelve.next: {v.id} is not assigned exactly once')
+        v = defs[0].value
     if isinstance(v, ast.IfExp):
         test = ast.unparse(v.test)
         if test == 'known':
